@@ -61,7 +61,10 @@ def shift_unit(fwd):
                        ForAll([d_], Implies(Or(visited(c, d_), And(d_ == D(c), c['days'] > 0, left > 0)), bk(c, L, d_) >= cap(res, d_))),
                        Implies(And(c['days'] > 0, left <= 0), And(cap(res, D(c)) > 0, bk(c, L, D(c)) > 0, bk(c, L, D(c)) <= cap(res, D(c)), totT(L, res, D(c), task) > totT(L0(c), res, D(c), task))),
                        Implies(c['days'] == 0, And(left == left0(c), L == L0(c))))
-        invs = [('main', inv_main), ('C03/ledger', lambda c: And(LedInv(rows_of(c), bal(c)), wf(rows_of(c))))]
+        LP = list(LedInvParts(None, None)) if False else ['totals-non-negative', 'task-part-within-total', 'day-total-within-capacity (balancing on)',
+                                                            'task-total-within-capacity (balancing off)', 'rows-only-on-days-with-capacity', 'rows-are-day-normalised']
+        led = lambda lab: (lambda c: LedInvParts(rows_of(c), bal(c))[lab])
+        invs = [('main', inv_main)] + [('C03/ledger/' + l, led(l)) for l in LP]
         if fwd:
             invs.append(('last-capacity', lambda c: Implies(c['days'] > 0, c['date_available_units'] == cap(c['resource'], D(c)))))
         locs = {'days': INT, 'date': TIME, 'left_hours': REAL, 'reserved': REAL, 'max_available': REAL, 'percent': REAL}
@@ -114,8 +117,8 @@ def shift_unit(fwd):
               'locals': locs, 'requires': [('pre', req)],
               'loops': {0: {'fingerprint': 'while left_hours > 0', 'invariant': invs, 'havoc_heap': ['_ResourceUsage.rows'],
                             'decreases': lambda c: c['max_steps'] + 1 - c['days']}},
-              'raises': {'RuntimeError': [('C03/ledger', lambda c: And(LedInv(rows_of(c), bal(c)), wf(rows_of(c)))),
-                                          ('C14/only-when-the-horizon-is-exhausted', lambda c: c['days'] > c['max_steps'])]},
+              'raises': {'RuntimeError': [('C03/ledger/' + l, led(l)) for l in LP] +
+                                         [('C14/only-when-the-horizon-is-exhausted', lambda c: c['days'] > c['max_steps'])]},
               'ensures': [(p, post(p)) for p in parts]}
         return Engine(F, f'{cls}.__shift_by_resource_usage_and_calendar', KERNEL_CONTRACTS, SCHED_CLASSES, fc), LEDGER_AX
     props = ['C03', 'C04', 'C14'] + (['C02', 'C08'] if fwd else ['C09'])
